@@ -254,6 +254,8 @@ def generate(tier, seed):
         cases.append({"kind": "dep5-trunc", "off": off})
     for j in range(len(BROKEN_TOML)):
         cases.append({"kind": "toml-broken", "j": j})
+    for j in range(3):
+        cases.append({"kind": "special-file", "j": j})
     for j in range(len(BROKEN_GITMODULES)):
         cases.append({"kind": "gitmodules", "j": j})
     nflip = 120 if tier == "quick" else 30000
@@ -324,6 +326,32 @@ def run_case(case, ctx):
                 judge(res, run_command(cmd, root), "broken", fault, cmd, names=(where,), detail=text)
                 res.sigs.add(short_hash(fault, cmd))
             res.cell("broken-toml")
+        elif kind == "special-file":
+            # a FIFO among the project's files, the command run as users run it (worker pool on): a read error, exit status 1 -
+            # and the command ends.  The watchdog is two minutes for a run that takes a second; it is the deciding observation
+            # here because "terminates" is what the statement says.
+            import subprocess
+
+            from .. import env
+
+            os.mkfifo(root / "pipe.py")
+            for j2 in range(6):
+                (root / f"plain{j2}.py").write_text("# SPDX-FileCopyrightText: 2020 J\n# SPDX-License-Identifier: MIT\n")
+            argv = [["lint"], ["lint", "--json"], ["lint-file", str(root / "pipe.py"), str(root / "plain0.py")]][case["j"]]
+            try:
+                p = subprocess.run([env.PY, "-m", "vlib.launch", "--", "--root", str(root)] + argv, cwd=str(root), env=env.child_env(),
+                                   stdout=subprocess.PIPE, stderr=subprocess.PIPE, timeout=120)
+            except subprocess.TimeoutExpired:
+                res.violation("command-does-not-terminate:special-file-with-worker-pool", f"`reuse {' '.join(argv[:2])}` on a project holding a FIFO "
+                              "was still running after 120 s (worker pool on)")
+                p = None
+            res.n += 1
+            if p is not None:
+                if b"VERIF-ESCAPED" in p.stderr or b"Traceback" in p.stderr or p.returncode not in (0, 1):
+                    res.violation("crash:special-file", f"`reuse {' '.join(argv[:2])}` exit {p.returncode} on a project holding a FIFO",
+                                  stderr=p.stderr.decode(errors="replace")[-600:])
+                res.sigs.add(short_hash("special-file", case["j"]))
+            res.cell("special-file:fifo-with-pool")
         elif kind == "gitmodules":
             trees.git_init(root)
             (root / ".gitmodules").write_bytes(BROKEN_GITMODULES[case["j"]])
